@@ -583,8 +583,9 @@ func (c *VirtualTable) Insert(ctx context.Context, values map[int]interface{}) (
 		new.ColumnValues[colName] = &v1proto.ColumnValue{Value: toSQLiteValue(v)}
 		dbg("SET %d %v=%v\n", i, key, v)
 	}
-	merged := MergeRows(key, ot, old, t, &new, t)
-	err = c.Tree.Root.Set(ctx, t, NewKey(key), merged)
+	when := laterOf(t, ot)
+	merged := MergeRows(key, ot, old, t, &new, when)
+	err = c.Tree.Root.Set(ctx, when, NewKey(key), merged)
 	if err != nil {
 		return 0, fmt.Errorf("set: %w", err)
 	}
@@ -622,8 +623,9 @@ func (c *VirtualTable) Update(ctx context.Context, key interface{}, values map[i
 	// An UPDATE is not an INSERT: it must not move the time at which the
 	// row was last inserted or deleted.
 	new.DeleteUpdateOffset = durationpb.New(ot.Add(old.DeleteUpdateOffset.AsDuration()).Sub(t))
-	merged := MergeRows(key, ot, old, t, &new, t)
-	err = c.Tree.Root.Set(ctx, t, NewKey(key), merged)
+	when := laterOf(t, ot)
+	merged := MergeRows(key, ot, old, t, &new, when)
+	err = c.Tree.Root.Set(ctx, when, NewKey(key), merged)
 	if err != nil {
 		return fmt.Errorf("set: %w", err)
 	}
@@ -642,8 +644,9 @@ func (c *VirtualTable) Delete(ctx context.Context, key interface{}) error {
 	}
 	t := updateTime(ctx)
 	new.Deleted = true
-	merged := MergeRows(key, ot, old, t, &new, t)
-	err = c.Tree.Root.Set(ctx, t, NewKey(key), merged)
+	when := laterOf(t, ot)
+	merged := MergeRows(key, ot, old, t, &new, when)
+	err = c.Tree.Root.Set(ctx, when, NewKey(key), merged)
 	if err != nil {
 		return fmt.Errorf("set: %w", err)
 	}
@@ -939,6 +942,18 @@ func Vacuum(ctx context.Context, tableName string, beforeTime time.Time) error {
 	}
 
 	return nil
+}
+
+// laterOf gives the modification time to store a locally written row under:
+// the tree keeps, per key, only the entry with the latest modification time,
+// so a row merged from a write that is older than the stored entry must be
+// stored at the entry's time, or the write would be dropped as a whole even
+// for columns it is the latest write of.
+func laterOf(a, b time.Time) time.Time {
+	if b.After(a) {
+		return b
+	}
+	return a
 }
 
 func updateTime(ctx context.Context) time.Time {
